@@ -15,19 +15,26 @@ TOKEN_ALPHABET = (
 
 def sentence(r, n=None, stop=None):
     n = n or r.randint(2, 7)
-    s = " ".join(r.choice(HEADER_WORDS) for _ in range(n))
+    s = " ".join(r.choice(irgen.vocab()) for _ in range(n))
     s = s[0].upper() + s[1:]
     if stop if stop is not None else r.random() < 0.5:
         s += "."
     return s
 
 
-def header(r, paragraphs=None):
-    """multi-paragraph header: summary + optional long description paragraphs"""
+# words that open a section when followed by ':' or an underline - and ordinary English when they open a sentence
+SECTION_WORDS = ("Returns", "Parameters", "Raises", "Args", "Return", "Yields", "Attributes", "Kwargs")
+
+
+def header(r, paragraphs=None, lead=None):
+    """multi-paragraph header: summary + optional long description paragraphs; with `lead` about half of the lines
+    start with one of those words (prose such as 'Returns the sum of the inputs')"""
     paragraphs = paragraphs if paragraphs is not None else r.randint(1, 3)
     paras = []
     for i in range(paragraphs):
         lines = [sentence(r) for _ in range(1 if i == 0 else r.randint(1, 3))]
+        if lead:
+            lines = ["%s %s" % (r.choice(lead), l[0].lower() + l[1:]) if r.random() < 0.5 else l for l in lines]
         paras.append("\n".join(lines))
     return "\n\n".join(paras)
 
@@ -155,14 +162,14 @@ def rand_params(r, n=None, star=False, types=True, defaults=True, trigger=False)
 
 
 def compose(r, style, indent=0, paragraphs=None, with_footer=None, params=None, returns=Ellipsis, types=True,
-            lead_nl=True, multi_line=False):
+            lead_nl=True, multi_line=False, header_lead=None):
     """-> (docstring, parts) where parts = {"header","section","footer","params","returns"}"""
     if params is None:
         params = rand_params(r, types=types)
     if returns is Ellipsis:
         returns = (irgen.make_type(r, r.choice(("int", "str", "bool", "optional"))), irgen.rand_doc(r, stop=False)) \
             if r.random() < 0.6 else None
-    h = header(r, paragraphs)
+    h = header(r, paragraphs, lead=header_lead)
     sec = param_section(r, style, params, returns, types=types, multi_line=multi_line)
     f = footer(r, style) if (with_footer if with_footer is not None else r.random() < 0.4) else ""
     blocks = [b for b in (h, sec, f) if b]
